@@ -184,6 +184,9 @@ func genComputeCases(r *Rng, tier string, forC02 bool) []*Case {
 		if r.Chance(30) {
 			in.Repeat = 1 + r.Intn(2)
 		}
+		if r.Chance(15) {
+			in.Reweigh = 1 + r.Intn(2)
+		}
 		if !forC02 && r.Chance(8) { // out-of-range schedule options must be refused, not "converge" at iteration 0
 			in.Freq = ip(1 + r.Intn(3))
 			in.Min = ip(-(*in.Freq) * r.Intn(3))
